@@ -90,6 +90,8 @@ hwloc_internal_cpukinds_restrict(hwloc_topology_t topology)
       memmove(kind, kind+1, (topology->nr_cpukinds - i - 1)*sizeof(*kind));
       i--;
       topology->nr_cpukinds--;
+      /* the vacated slot must not keep pointers that now belong to the previous slot */
+      memset(&topology->cpukinds[topology->nr_cpukinds], 0, sizeof(*kind));
       removed = 1;
     }
   }
